@@ -40,7 +40,8 @@ Definition as_entry (s : sexp) : option entry :=
   match s with
   | Atom a =>
       if a =? "pl" then Some PLoad else if a =? "pls" then Some PLoads
-      else if a =? "cl" then Some CLoad else if a =? "cls" then Some CLoads else None
+      else if a =? "cl" then Some CLoad else if a =? "cls" then Some CLoads
+      else if a =? "unp" then Some PUnp else None
   | _ => None
   end.
 
@@ -49,7 +50,7 @@ Definition as_hop (s : sexp) : option hop :=
   | Atom a =>
       if a =? "arm" then Some HArm else if a =? "rm" then Some HRemove
       else if a =? "enter" then Some HEnter else if a =? "leave" then Some HLeave
-      else if a =? "leavex" then Some HLeaveExc else None
+      else if a =? "leavex" then Some HLeaveExc else if a =? "mk" then Some HMake else None
   | SList [Atom a; x] =>
       if a =? "act" then match as_gnames x with Some l => Some (HActivate l) | None => None end
       else None
